@@ -11,6 +11,7 @@ import (
 	"os"
 	"os/exec"
 	"regexp"
+	"sort"
 	"strconv"
 	"strings"
 	"time"
@@ -44,6 +45,8 @@ type Solver struct {
 	Seconds   float64
 	LastError string
 	timeoutMs int
+	unsatCache map[string]bool
+	CacheHits  int
 }
 
 func solverArgv(name string, timeoutMs int) []string {
@@ -74,7 +77,7 @@ func NewSolver(name string, pool *TermPool, timeoutMs int) (*Solver, error) {
 		return nil, err
 	}
 	s := &Solver{name: name, cmd: cmd, in: in, out: bufio.NewReaderSize(outp, 1<<20), pool: pool,
-		emitted: map[int]bool{}, fdone: map[string]bool{}, timeoutMs: timeoutMs}
+		emitted: map[int]bool{}, fdone: map[string]bool{}, timeoutMs: timeoutMs, unsatCache: map[string]bool{}}
 	if name == "cvc5" {
 		s.buf.WriteString("(set-logic QF_BV)\n")
 	}
@@ -178,6 +181,30 @@ var valRe = regexp.MustCompile(`\(\s*([^\s()]+)\s+(#x[0-9a-fA-F]+|#b[01]+|true|f
 // Check decides satisfiability of the conjunction of asserts.  If wantModel is
 // non-nil and the result is Sat, the values of those variables are returned.
 func (s *Solver) Check(asserts []*Term, wantModel []*Term) (SatResult, map[string]uint64) {
+	// unsat answers are cached by the set of asserted terms (sat answers need fresh models)
+	ids := make([]int, 0, len(asserts))
+	for _, a := range asserts {
+		if a.IsFalse() {
+			return Unsat, nil
+		}
+		if !a.IsTrue() {
+			ids = append(ids, a.id)
+		}
+	}
+	sort.Ints(ids)
+	key := fmt.Sprint(ids)
+	if s.unsatCache[key] {
+		s.CacheHits++
+		return Unsat, nil
+	}
+	res, m := s.check(asserts, wantModel)
+	if res == Unsat {
+		s.unsatCache[key] = true
+	}
+	return res, m
+}
+
+func (s *Solver) check(asserts []*Term, wantModel []*Term) (SatResult, map[string]uint64) {
 	start := time.Now()
 	for _, a := range asserts {
 		s.emit(a)
